@@ -203,6 +203,25 @@ pub fn g_interp(w: &RWorld, rng: &mut Rng, idx: u64) -> (Input, &'static str) {
     let seq = *pick(rng, &[0u32, 1, 10, 0xffff, 0x400001, 0x80000000, 0xfffffffe, 0xffffffff]);
     let lt = *pick(rng, &[0u32, 1, 100, 499_999_999, 500_000_000, 0xffffffff]);
     // fixed stress part
+    let n_deep = (N_DEEP_SHAPES * 3 + 2) as u64;
+    if (12..12 + n_deep).contains(&idx) {
+        // deep nesting through every child position, committed in an output (tapscript has no size limit)
+        let j = (idx - 12) as usize;
+        let (shape, depth, kind, ctx) = if j >= N_DEEP_SHAPES * 3 {
+            (2 + (j - N_DEEP_SHAPES * 3), 100_000, 4u64, 3usize)
+        } else {
+            match j % 3 {
+                0 => (j / 3, 403, 0u64, 2usize),
+                1 => (j / 3, 1_000, 4, 3),
+                _ => (j / 3, 10_000, 4, 3),
+            }
+        };
+        let (sc, label) = deep_script(w, ctx, shape, depth);
+        let ds = DummySat { w, keys: !0, pre: !0, lt, seq, big: vec![] };
+        let stack = if shape == 3 { vec![ds.schnorr().to_vec()] } else { vec![] };
+        let (spk, sig, wit, _) = commit_script(w, rng, &sc, kind, stack);
+        return (Input::Interp { spk, sig, wit, seq, lt }, label);
+    }
     if idx < 12 {
         let big: Vec<Vec<u8>> = (0..10_000).map(|_| vec![]).collect();
         let (spk, sig, wit, l): (Vec<u8>, Vec<u8>, Vec<Vec<u8>>, &'static str) = match idx {
@@ -372,14 +391,50 @@ pub fn run_interp(w: &RWorld, i: &Input) -> Obs {
         Ok(i) => i,
         Err(e) => return Obs::err(format!("from_txdata:{}", err_class(&e))),
     };
+    // ORACLE without a crash: the interpreter accepted (decoded) the committed script; its
+    // IF/NOTIF nesting, counted on the bytes by the harness, is a lower bound of the depth of the
+    // miniscript it holds, which must not exceed the documented limit
+    {
+        let b = spk.as_bytes();
+        let mut w_items: Vec<&[u8]> = witness.iter().collect();
+        if w_items.len() >= 2 && w_items.last().map(|x| x.first() == Some(&0x50)).unwrap_or(false) {
+            w_items.pop();
+        }
+        let last_push = |s: &bitcoin::Script| -> Option<Vec<u8>> {
+            s.instructions().filter_map(|i| i.ok()).filter_map(|i| i.push_bytes().map(|p| p.as_bytes().to_vec())).last()
+        };
+        let executed: Option<Vec<u8>> = if spk.is_p2wsh() {
+            w_items.last().map(|x| x.to_vec())
+        } else if spk.is_p2tr() {
+            if w_items.len() >= 2 { Some(w_items[w_items.len() - 2].to_vec()) } else { None }
+        } else if spk.is_p2sh() {
+            match last_push(&sig) {
+                Some(r) if bitcoin::Script::from_bytes(&r).is_p2wsh() => w_items.last().map(|x| x.to_vec()),
+                r => r,
+            }
+        } else if spk.is_p2pkh() || spk.is_p2wpkh() || spk.is_p2pk() {
+            None
+        } else {
+            Some(b.to_vec())
+        };
+        if let Some(sc) = executed {
+            let d = if_depth(&sc);
+            if d > super::DEPTH_LIMIT {
+                panic!("VERIF-ORACLE depth guard bypassed: Interpreter::from_txdata accepted a script whose IF nesting is {} deep, limit {}", d, super::DEPTH_LIMIT);
+            }
+        }
+    }
     let _ = interp.is_legacy();
     let _ = interp.is_segwit_v0();
     let _ = interp.is_taproot_v1_key_spend();
     let _ = interp.is_taproot_v1_script_spend();
     let _ = interp.sig_type();
     let _ = interp.inferred_descriptor_string();
-    if let Err(e) = interp.inferred_descriptor() {
-        let _ = err_class(&e);
+    match interp.inferred_descriptor() {
+        Ok(d) => super::depth_oracle_desc(&d, "Interpreter::inferred_descriptor"),
+        Err(e) => {
+            let _ = err_class(&e);
+        }
     }
     let mut n = 0u64;
     let mut last_err = String::new();
